@@ -1,18 +1,25 @@
 """C01 - BLAS routines compute the reference operation on exactly the addressed elements.
 
 R1  TLC checks the storage theorems of specs/blas/BlasAddr.tla (addresses in range, minimum
-    length attained, storage injective, inverse maps) over every operand descriptor in the bound,
-    and - on a sample of every routine family in both number domains - that the reference
-    semantics of BlasRef.tla writes only addressed slots, never lets a poisoned (must-not-read)
-    slot influence the result, stays exactly representable in float32, and that the triangular
-    solves satisfy their defining equation.
+    length attained, storage injective, inverse maps; the column-major twins of the wrapper
+    packages are the row-major maps of the transposed descriptor) over every operand descriptor
+    in the bound, and - on a sample of every routine family in both number domains - that the
+    reference semantics of BlasRef.tla writes only addressed slots, never lets a poisoned
+    (must-not-read) slot influence the result, stays exactly representable in float32, that the
+    triangular solves satisfy their defining equation, and that forwarding the wrapper structs
+    that describe the operands of a call yields that call (BlasWrap.tla).
 R2  spec->code: TLC (BlasGen.tla) enumerates calls (routine x flags x shapes x strides x
     increments x scalars x slack), prints the complete backing array of every operand before the
-    call and the complete expected arrays after it; the Go harness builds the slices in float32,
-    float64, complex64 and complex128 (poison codes become payload NaNs, canaries in the spare
-    capacity), calls blas/gonum.Implementation and compares every element of every array and
-    the returned value with what the specification printed - under the default (assembly),
-    noasm and safe builds.
+    call, the complete expected arrays after it, and the wrapper function, structs, forwarded
+    parameters and documented panic of the same call through blas32 / blas64 / cblas64 /
+    cblas128; the Go harness builds the slices in float32, float64, complex64 and complex128
+    (poison codes become payload NaNs, canaries in the spare capacity), calls
+    blas/gonum.Implementation and then the wrapper (with a recording implementation installed
+    through Use, which must receive exactly the specified call) and compares every element of
+    every array and the returned value with what the specification printed - under the default
+    (assembly), noasm and safe builds.  Further generators: BlasConv.tla (From conversions
+    between row-major and column-major structs), BlasUse.tla (Use / Implementation state machine
+    and its histories), BlasNorm.tla (nrm2, rotg, rotmg with exact rational expectations).
 """
 import json
 import os
@@ -68,39 +75,93 @@ def run(ctx):
     builds = [("default", ""), ("noasm", "noasm")] + ([("safe", "safe")] if thorough else [])
     bins = {n: ctx.build(t) for n, t in builds}
     workers = int(os.environ.get("VERIF_TLC_WORKERS", "4"))
+    stages = []
 
-    # ---- R1: storage theorems -------------------------------------------------
-    ctx.tlc("blas/BlasAddrCheck.tla", "blas/BlasAddrCheck.cfg", name="R1 storage maps: range, tightness, injectivity, inverses",
-            subst=dict(MAXDIM=6 if thorough else 5, MAXK=3, MAXINC=3, LDEXTRA=tset([0, 1, 2])), workers=4)
-    # ---- R1: theorems of the reference semantics on a sample of every family ---
+    def replay_all(cases, name):
+        for bn, _ in builds:
+            ctx.replay(bins[bn], "blas", cases, ["build=" + bn], name="R2 replay %s [%s]" % (name, bn))
+
+    # ---- R1: storage theorems (row-major maps and their column-major twins) -------------------
+    stages.append(lambda: ctx.tlc(
+        "blas/BlasAddrCheck.tla", "blas/BlasAddrCheck.cfg",
+        name="R1 storage maps: range, tightness, injectivity, inverses, column-major duality",
+        subst=dict(MAXDIM=6 if thorough else 5, MAXK=3, MAXINC=3, LDEXTRA=tset([0, 1, 2])), workers=4))
+
+    # ---- R1: theorems of the reference semantics on a sample of every family ------------------
+    def r1(name, cx, fams):
+        return lambda: ctx.tlc(
+            "blas/BlasGen.tla", "blas/BlasGen.cfg", workers=workers, timeout=1500,
+            name="R1 semantics theorems (footprint, poison independence, exactness, solves, wrapper forwarding) " + name,
+            subst=base_subst(ctx, cx, fams, 250 if thorough else 40, checks=True))
     for name, cx, fams in GROUPS:
-        ctx.tlc("blas/BlasGen.tla", "blas/BlasGen.cfg", workers=workers, timeout=1500,
-                name="R1 semantics theorems (footprint, poison independence, exactness, solves) " + name,
-                subst=base_subst(ctx, cx, fams, 250 if thorough else 40, checks=True))
+        stages.append(r1(name, cx, fams))
 
-    # ---- R2: generated calls replayed into gonum ------------------------------
+    # ---- R2: generated calls replayed into gonum (Implementation and the four wrapper packages) --
     target = {"L1": 4000, "L2": 2000, "L3": 1000} if thorough else {"L1": 600, "L2": 400, "L3": 300}
+
+    def r2(name, cx, fams):
+        def go():
+            cases = ctx.gen("blas/BlasGen.tla", "blas/BlasGen.cfg", workers=workers, name="R2 gen " + name,
+                            subst=base_subst(ctx, cx, fams, target[name[:2]]))
+            replay_all(cases, name)
+        return go
     for name, cx, fams in GROUPS:
-        cases = ctx.gen("blas/BlasGen.tla", "blas/BlasGen.cfg", workers=workers, name="R2 gen " + name,
-                        subst=base_subst(ctx, cx, fams, target[name[:2]]))
-        for bn, _ in builds:
-            ctx.replay(bins[bn], "blas", cases, ["build=" + bn], name="R2 replay %s [%s]" % (name, bn))
+        stages.append(r2(name, cx, fams))
+
     # block-edge and parallel-threshold shapes (64-element blocks, >= 4 blocks => parallel gemm)
+    def big(name, cx, fams, lvl):
+        def go():
+            fm = fams
+            if lvl == 1 and not thorough:
+                fm = fams[:1] + fams[2:3]      # quick: gemm, syrk/herk
+            dims = [63, 64, 65, 129] if thorough else [63, 64, 65]
+            tg = (40 if lvl == 2 else 5) if thorough else (10 if lvl == 2 else 1)
+            cases = ctx.gen("blas/BlasGen.tla", "blas/BlasGen.cfg", workers=workers, name="R2 gen " + name, timeout=2400,
+                            subst=base_subst(ctx, cx, fm, tg, DIMS=tset(dims), DIMS3=tset(dims), RAY="{}", INCMAX=2))
+            replay_all(cases, name)
+        return go
     for name, cx, fams, lvl in BIG:
-        if lvl == 1 and not thorough:
-            fams = fams[:1] + fams[2:3]      # quick: gemm, syrk/herk
-        dims = [63, 64, 65, 129] if thorough else [63, 64, 65]
-        tg = (40 if lvl == 2 else 5) if thorough else (10 if lvl == 2 else 1)
-        cases = ctx.gen("blas/BlasGen.tla", "blas/BlasGen.cfg", workers=workers, name="R2 gen " + name, timeout=2400,
-                        subst=base_subst(ctx, cx, fams, tg, DIMS=tset(dims), DIMS3=tset(dims), RAY="{}", INCMAX=2))
-        for bn, _ in builds:
-            ctx.replay(bins[bn], "blas", cases, ["build=" + bn], name="R2 replay %s [%s]" % (name, bn))
+        stages.append(big(name, cx, fams, lvl))
+
+    # ---- wrapper packages: From conversions, Use / Implementation histories --------------------
+    def conv(cx):
+        def go():
+            cases = ctx.gen("blas/BlasConv.tla", "blas/BlasConv.cfg", name="R2 gen conversions " + ("complex" if cx else "real"),
+                            subst=dict(CX="TRUE" if cx else "FALSE", SEED=ctx.seed,
+                                       DIMS=tset(range(0, 5)), BANDS=tset(range(0, 3)),
+                                       LDEXTRA=tset([0, 1, 3] if thorough else [0, 2]), SLACKS=tset([0, 2])))
+            replay_all(cases, "conversions " + ("complex" if cx else "real"))
+        return go
+    stages += [conv(False), conv(True)]
+
+    def use():
+        cases = ctx.gen("blas/BlasUse.tla", "blas/BlasUse.cfg", name="R1+R2 Use/Implementation state machine and histories",
+                        subst=dict(MAXLEN=5 if thorough else 4, CALLS=sset(["Axpy", "Gemv", "Gemm"])))
+        replay_all(cases, "Use/Implementation histories")
+    stages.append(use)
+
+    # ---- nrm2, rotg, rotmg on data with exact rational results ---------------------------------
+    def norm():
+        cases = ctx.gen("blas/BlasNorm.tla", "blas/BlasNorm.cfg", workers=workers,
+                        name="R1+R2 nrm2 / rotg / rotmg (lemmas and cases)",
+                        subst=dict(SEED=ctx.seed, K=3, MAXLEN=4, REPS=tset([1, 4, 9, 16]), NRMINCS=tset([1, 2, 3]),
+                                   NRMNEG=tset([1, 2] if thorough else [1]), R=20 if thorough else 15,
+                                   STRIDE=1 if thorough else 4, STRIDEG=1 if thorough else 8))
+        replay_all(cases, "nrm2/rotg/rotmg")
+    stages.append(norm)
+
+    ctx.parallel(stages, width=int(os.environ.get("VERIF_C01_WIDTH", "3")))
 
     ctx.assumptions += [
         "TLC/SANY and the CommunityModules Json module are trusted",
-        "the harness's operand builder (integers -> floats, poison codes -> payload NaNs), its dispatch table "
-        "(generated from a table of argument names, type-checked against gonum's signatures) and its exact "
-        "comparison are trusted; they contain no arithmetic",
+        "the harness's operand builder (integers -> floats, poison codes -> payload NaNs, exact scaling by a power "
+        "of two), its dispatch tables (generated from tables of argument names and struct types, type-checked "
+        "against gonum's signatures; the struct types and wrapper names are also cross-checked against the ones the "
+        "specification prints), the recording BLAS implementation installed with Use, and its exact comparison "
+        "(math/big for rationals with a printed tolerance) are trusted; they contain no arithmetic",
+        "nrm2 / rotg / rotmg: the tolerance printed by the specification ((2n+8) eps for nrm2, 8 eps for rotg, "
+        "16 eps for rotmg; eps = 2^-23 / 2^-52) is this check's reading of the property's 'standard rounding bound'; "
+        "observed errors are below 4 eps",
         "data are small integers / Gaussian integers, so every intermediate of any summation order is exact in "
         "float32 (theorem Exact checked by TLC on every emitted case); the rounding-bound clause on inexact data "
         "is not exercised",
@@ -109,8 +170,10 @@ def run(ctx):
     ]
     return ctx.finish(
         rule="one case = one BLAS call (routine family, flags, dims, strides, increments, scalars, slack) generated "
-             "and evaluated by TLC, executed in two precisions of its number domain; every element of every backing "
-             "array and the returned value compared; non-trivial = at least one dimension is positive",
+             "and evaluated by TLC, executed in two precisions of its number domain, directly and through the wrapper "
+             "package of the precision (forwarded arguments recorded by an implementation installed with Use); every "
+             "element of every backing array and the returned value compared; or one conversion / one Use history / "
+             "one nrm2, rotg or rotmg call; non-trivial = at least one dimension is positive",
         exhaustive=False)
 
 
